@@ -132,6 +132,10 @@ def build_tasks(tier, seed):
             for p in (2, 4, 6):
                 tasks.append((('lattice',) + c + (0.3,), p, False, (16, 32),
                               seed))
+    tasks.append((('scaled', 0.02, 'L2', 'S3', 'G2', 'D1', 0.3), 8, False,
+                  (16, 32), seed))
+    tasks.append((('scaled', 30.0, 'L1', 'S2', 'G2', 'D1', 0.0), 4, False,
+                  (16, 32), seed))
     for p in ((8,) if tier == 'quick' else (4, 8)):
         tasks.append((('mink',), p, False, (16, 32), seed))
         tasks.append((('mink',), p, True, (16, 32), seed))
@@ -181,7 +185,11 @@ def judge(run, task, res):
             ok = e_lo <= 1e-9 and e_hi <= 1e-9
             why = f"algebraic/exact key: rel err {e_lo:.2e},{e_hi:.2e}"
         else:
-            ok, why = gc.converges(e_lo, e_hi, p, cap=gc.CAPS[p])
+            # badly scaled data: large terms (~1/a^2) cancel in the
+            # dt-quantities; the error relative to the result is larger at
+            # equal resolution (it still has to fall at the scheme's order)
+            ok, why = gc.converges(e_lo, e_hi, p, cap=gc.CAPS[p] * (
+                30 if desc[0] == 'scaled' else 1))
         if not ok:
             kind = ('constraint' if k in CONSTRAINTS else
                     'dt' if k in DTKEYS else 'value')
